@@ -712,6 +712,11 @@ class BptkServer(Flask):
             individual_agent_properties=individual_agent_properties
         )
 
+        # a session begun on an instance is externalised right away: otherwise a restart before its first step
+        # brings back whatever session the instance's state file held before
+        if self._external_state_adapter != None and instance.session_state is not None:
+            self._external_state_adapter.save_instance(self._instance_manager._get_instance_state(instance_uuid))
+
         resp = make_response('{"msg":"session started"}', 200)
         resp.headers['Content-Type'] = 'application/json'
         resp.headers['Access-Control-Allow-Origin']='*'
